@@ -805,10 +805,114 @@ pub fn run_ds(cfg: &RunCfg, rep: &mut Report, prop: &str) {
     }
 }
 
+/// `State::allocate_sector_numbers` on a real miner `State`: the allocated bitfield only grows and
+/// DenyCollisions rejects any intersection (C04 "every sector number is allocated at most once").
+pub fn run_alloc(cfg: &RunCfg, rep: &mut Report, prop: &str) {
+    use fil_actor_miner::{CollisionPolicy, State};
+    use fvm_ipld_encoding::CborStore;
+    let nseq = if cfg.thorough() { 2000u64 } else { 150 } * cfg.budget;
+    let mut lean = if cfg.use_lean { Some(LeanDriver::spawn("partition").expect("lean driver")) } else { None };
+    let seqs: Vec<u64> = match cfg.only_seq {
+        Some(k) if (2_000_000..3_000_000).contains(&k) => vec![k - 2_000_000],
+        Some(_) => vec![],
+        None => (0..nseq).collect(),
+    };
+    let policy = Policy::default();
+    'seqs: for seq in seqs {
+        let mut r = seq_rng(cfg.seed ^ 0xA110C, seq);
+        let store = MemoryBlockstore::new();
+        let mut st = State::new(&policy, &store, cid::Cid::default(), 0, 0).unwrap();
+        let mut lines = vec!["allocnew".to_string()];
+        if let Some(l) = lean.as_mut() {
+            l.ask("allocnew").unwrap();
+        }
+        rep.sequences += 1;
+        let mut agree = true;
+        let mut ever: Set = Set::new();
+        let len = r.range(4, 30);
+        for step in 0..len {
+            let cur: BitField = store.get_cbor(&st.allocated_sectors).unwrap().unwrap();
+            let cur_set = set_of(&cur);
+            let cur_v: Vec<u64> = cur_set.iter().copied().collect();
+            // valid-biased: mostly fresh numbers; sometimes one already allocated / all allocated
+            let mut nums: Vec<u64> = (0..r.below(4) + 1).map(|_| r.below(60)).collect();
+            let mode = r.below(10);
+            if mode < 5 {
+                nums.retain(|n| !cur_set.contains(n));
+            } else if mode < 7 && !cur_v.is_empty() {
+                nums.push(*r.pick(&cur_v));
+            } else if mode == 7 && !cur_v.is_empty() {
+                nums = vec![*r.pick(&cur_v)];
+            }
+            nums.sort();
+            nums.dedup();
+            let deny = r.chance(3, 4);
+            let line = format!("alloc {} {}", deny as u8, list_str(nums.iter()));
+            lines.push(line.clone());
+            rep.ops += 1;
+            rep.op("alloc");
+            let saved = st.clone();
+            let res = st.allocate_sector_numbers(
+                &store,
+                &bf(&nums),
+                if deny { CollisionPolicy::DenyCollisions } else { CollisionPolicy::AllowCollisions },
+            );
+            if res.is_err() {
+                st = saved;
+                rep.err("alloc:collision");
+            } else {
+                rep.ops_ok += 1;
+            }
+            let after: BitField = store.get_cbor(&st.allocated_sectors).unwrap().unwrap();
+            let after_set = set_of(&after);
+            let hdr = vec![
+                format!("property {} seed {} seq {} (re-run: ba_harness {} --seed {} --only-seq {})", prop, cfg.seed, 2_000_000 + seq, prop.to_lowercase(), cfg.seed, 2_000_000 + seq),
+                format!("failing step {}: {}", step, line),
+            ];
+            // oracle
+            let collides = nums.iter().any(|n| cur_set.contains(n));
+            let viol = if !cur_set.is_subset(&after_set) {
+                Some(("allocated-sectors-shrunk", format!("{:?} -> {:?}", cur_set, after_set)))
+            } else if res.is_ok() && deny && collides {
+                Some(("sector-number-allocated-twice", format!("{:?} accepted with DenyCollisions while {:?} allocated", nums, cur_set)))
+            } else if res.is_ok() && !nums.iter().all(|n| after_set.contains(n)) {
+                Some(("allocation-not-recorded", format!("{:?} not all in {:?}", nums, after_set)))
+            } else if res.is_err() && after_set != cur_set {
+                Some(("failed-allocation-changed-state", String::new()))
+            } else if res.is_err() && !(deny && collides) {
+                Some(("allocation-refused-without-collision", format!("{:?} vs {:?}", nums, cur_set)))
+            } else {
+                None
+            };
+            ever.extend(after_set.iter().copied());
+            if let Some((kind, detail)) = viol {
+                let path = write_replay(prop, &format!("{}-a{}", cfg.seed, seq), &hdr, &lines);
+                rep.violations.push(Violation { kind: kind.into(), detail, replay: path });
+                continue 'seqs;
+            }
+            if let Some(l) = lean.as_mut() {
+                let m = l.ask(&line).unwrap();
+                let i = format!("{} | {}", if res.is_ok() { "ok" } else { "err" }, list_str(after_set.iter()));
+                let m_norm = if m.starts_with("err ") { format!("err | {}", m.splitn(2, " | ").nth(1).unwrap_or("")) } else { m.clone() };
+                if m_norm != i {
+                    agree = false;
+                    let path = write_replay(prop, &format!("corr-{}-a{}", cfg.seed, seq), &hdr, &lines);
+                    rep.disagreements.push(Disagreement { seq: 2_000_000 + seq, step: step as u64, op: line, impl_out: i, model_out: m, replay: path });
+                    continue 'seqs;
+                }
+            }
+        }
+        if agree && lean.is_some() {
+            rep.traces_validated += 1;
+        }
+    }
+}
+
 pub fn run_c04(cfg: &RunCfg) -> Report {
     let mut rep = Report::new("C04", cfg.seed, &cfg.tier);
     rep.nontrivial_rule = "a DS-level sequence is non-trivial when at least three different kinds of partition operations succeeded and changed the state; distinct = distinct hash of the op lines".into();
     run_ds(cfg, &mut rep, "C04");
+    run_alloc(cfg, &mut rep, "C04");
     rep
 }
 
